@@ -49,6 +49,8 @@ type FuncAn struct {
 	projAtom    map[*Atom]projCoef
 	capMemo     map[ssa.Value]Lin
 	memPhis     map[*ssa.BasicBlock][]memPhi
+	capAtomOf   map[*Atom]ssa.Value  // capacity atoms -> the slice value
+	fieldAtomOf map[*Atom]*ssa.Field // atoms of struct-value fields
 }
 
 type remRec struct {
@@ -376,6 +378,10 @@ func (a *FuncAn) fieldAtom(x *ssa.Field) Lin {
 	st := x.X.Type().Underlying().(*types.Struct)
 	_, existed := a.atoms[key]
 	at := a.atom(key, a.valName(base)+"."+st.Field(x.Field).Name(), uns)
+	if a.fieldAtomOf == nil {
+		a.fieldAtomOf = map[*Atom]*ssa.Field{}
+	}
+	a.fieldAtomOf[at] = x
 	if !existed {
 		if ins, ok := base.(ssa.Instruction); ok {
 			a.atomDef[at] = ins.Block()
@@ -724,6 +730,10 @@ func (a *FuncAn) CapOf(v ssa.Value) Lin {
 		if ins, ok := v.(ssa.Instruction); ok {
 			a.atomDef[at] = ins.Block()
 		}
+		if a.capAtomOf == nil {
+			a.capAtomOf = map[*Atom]ssa.Value{}
+		}
+		a.capAtomOf[at] = v
 		l = AtomLin(at)
 		ln := a.LenOf(v)
 		if ln.synNonNeg() {
